@@ -124,7 +124,7 @@ class ByteInterval(Node):
     address = _IndexedAttribute[typing.Optional[int]]()(
         lambda self: self.section
     )
-    size = _IndexedAttribute[int]()(lambda self: self.section)
+    _size = _IndexedAttribute[int]()(lambda self: self.section)
 
     def __init__(
         self,
@@ -197,6 +197,23 @@ class ByteInterval(Node):
 
     def _index_discard(self, block: ByteBlock) -> None:
         self._interval_tree.discard(block)
+
+    @property
+    def size(self) -> int:
+        """The size of this interval in bytes.
+
+        The contents of an interval are never longer than the interval:
+        lowering the size below the number of stored bytes truncates them.
+        """
+
+        return self._size
+
+    @size.setter
+    def size(self, value: int) -> None:
+        self._size = value
+        contents = getattr(self, "contents", None)
+        if contents is not None and len(contents) > value:
+            self.contents = contents[:value]
 
     @property
     def initialized_size(self) -> int:
